@@ -151,6 +151,8 @@ def handleE2E (fs : List String) : String :=
   -- error, the device stays enabled and keeps auditing (an operation that answers with an error has no effect)
   -- the node is restarted while its only (configuration-declared) device cannot be initialised: an enabled device that
   -- accepts nothing means nothing is routed — the node does not come up; with the device up everything is audited
+  -- an entry the only device could not deliver was not accepted: the request is refused and has no effect
+  | ["socketstall"] => "small:ok|big:refused|stored:0"
   | ["declareddown", down] =>
     if down = "1" then "unseal:refused|listed:0|served:0|audited:0"
     else if down = "0" then "unseal:ok|listed:1|served:1|audited:1" else "bad-op"
